@@ -16,7 +16,7 @@ import z3
 DEBUG = bool(os.environ.get('SYMX_DEBUG'))
 
 
-class EngineLimit(Exception):
+class EngineLimit(BaseException):
     """The engine cannot decide (unsupported operation, solver unknown, budget). Inconclusive, never a pass."""
 
 
@@ -1204,7 +1204,7 @@ class Explorer:
         return self.stats
 
 
-class HarnessError(Exception):
+class HarnessError(BaseException):
     """the harness / engine failed its own self check (exit code 3)"""
 
 
